@@ -96,6 +96,8 @@ func H_C18_newmodel(v *zzverif.T) {
 		}
 	}
 	decodable := true
+	// anydtype: the data_type of typed initializers ranges over ALL int32 values
+	anyDtype := v.Has("anydtype") && v.CBool("anydtype")
 	if v.CBool("graph") {
 		g := &onnx.GraphProto{}
 		for i := 0; i < v.CInt("ninit"); i++ {
@@ -112,7 +114,11 @@ func H_C18_newmodel(v *zzverif.T) {
 				}
 			} else {
 				tp.DataType = zzverif.Sym[int32](v, fmt.Sprintf("dtype%d", i))
-				v.Assume(tp.DataType == 1 || tp.DataType == 7 || tp.DataType == 10 || tp.DataType == 0 || tp.DataType == 8)
+				if anyDtype {
+					decodable = false // (not predicted: only the no-panic and model-or-error assertions apply)
+				} else {
+					v.Assume(tp.DataType == 1 || tp.DataType == 7 || tp.DataType == 10 || tp.DataType == 0 || tp.DataType == 8)
+				}
 				tp.FloatData = zzverif.Syms[float32](v, fmt.Sprintf("f%d_", i), n)
 				// FLOAT reads float_data; INT64 finds no int64_data and falls back to (empty) raw data;
 				// the other codes are not representable (float_data populated: known C12 fallback)
@@ -160,7 +166,9 @@ func H_C18_newmodel(v *zzverif.T) {
 	}
 	v.Assert("C18.model-or-error", (m == nil) == (err != nil))
 	expectErr := !decodable || maxVersion != 13
-	v.Assert("C18.refused-iff-undecodable-or-unsupported-opset", (err != nil) == expectErr)
+	if !anyDtype {
+		v.Assert("C18.refused-iff-undecodable-or-unsupported-opset", (err != nil) == expectErr)
+	}
 	if decodable && maxVersion != 13 {
 		v.Assert("C18.unsupported-opset-error", err != nil && v.Is(err, ops.ErrUnsupportedOpsetVersion))
 	}
